@@ -79,13 +79,20 @@ Fixpoint shape (fuel n : nat) (evs : list (event N)) : bool :=
 
 Definition q_ok (q : Q) : bool := negb (Qeq_bool q poison).
 
+(** every quality value the model used was tabulated, and whatever is kept is no worse *)
 Definition outcome_ok (o : outcome Q) : bool :=
   match o with
-  | Kept a b => q_ok a && q_ok b && negb (Qle_bool a b)
+  | Kept a b => q_ok a && q_ok b && Qle_bool b a
   | RolledBack a b => q_ok a && q_ok b && Qle_bool a b
   | Measured a => q_ok a
   | _ => true
   end.
+
+(** the rollback test of the code is "improvement <= 0" ([Qle_bool q0 q1]).  At an exact tie
+    (q0 = q1, the discontinuity of that decision: DESIGN 2.4) the other reading "improvement < 0"
+    ([Qlt_bool]: ties are kept) is accepted as well; both are covered by the theorems
+    ([keeps_no_worse], Proofs/C13_Instances.v).  Without an exact tie the two runs coincide. *)
+Definition Qlt_bool (a b : Q) : bool := negb (Qle_bool b a).
 
 Fixpoint measured (tr : list (state N N * outcome Q)) : list Q :=
   match tr with
@@ -108,13 +115,13 @@ Fixpoint snaps_eqb (l : list (state N N)) (m : list (list N * list N)) : bool :=
   | _, _ => false
   end.
 
-Definition check_case (nclamps : nat) (ftab ttab : list (nat * N * N)) (gq : list (list N * Q))
+Definition check_case_with (rb : Q -> Q -> bool) (nclamps : nat) (ftab ttab : list (nat * N * N)) (gq : list (list N * Q))
            (gbad : list (list N)) (jbad : list (nat * list N)) (cj : list nat)
            (links : list (nat * list (nat * nat))) (events : list (event N)) (init : state N N)
            (snaps : list (list N * list N)) (final : list N * list N) (mesh0 mesh1 : list N)
            (iters : list (Q * Q)) (raised : bool) : bool :=
   let g := mk_grid nclamps ftab ttab gq gbad jbad cj links in
-  let '(tr, fin) := run_events Qle_bool g init events in
+  let '(tr, fin) := run_events rb g init events in
   let calls := map (fun te => fst (fst te)) (filter (fun te => negb (is_measure (snd te))) (combine tr events)) in
   wfb g (length (pts init))
   && (length (prm init) =? nclamps)%nat
@@ -124,3 +131,12 @@ Definition check_case (nclamps : nat) (ftab ttab : list (nat * N * N)) (gq : lis
   && nlist_eqb (if completed tr then pts fin else mesh0) mesh1
   && forallb (fun so => outcome_ok (snd so)) tr
   && (raised || (shape (S (length events)) nclamps events && pairs_eqb (measured tr) iters)).
+
+Definition check_case (nclamps : nat) (ftab ttab : list (nat * N * N)) (gq : list (list N * Q))
+           (gbad : list (list N)) (jbad : list (nat * list N)) (cj : list nat)
+           (links : list (nat * list (nat * nat))) (events : list (event N)) (init : state N N)
+           (snaps : list (list N * list N)) (final : list N * list N) (mesh0 mesh1 : list N)
+           (iters : list (Q * Q)) (raised : bool) : bool :=
+  if check_case_with Qle_bool nclamps ftab ttab gq gbad jbad cj links events init snaps final mesh0 mesh1 iters raised
+  then true
+  else check_case_with Qlt_bool nclamps ftab ttab gq gbad jbad cj links events init snaps final mesh0 mesh1 iters raised.
